@@ -456,8 +456,9 @@ namespace
                 return 0;
             case PL_MID:
             {
+                // every offset the pointer contract allows: steps of the required pointer alignment (which is smaller than the element for std::complex)
                 size_t line = 64 * (4 + (off / 64) % 8);
-                o = line + (off % 64) * eb % 128;
+                o = line + (off % 64) * std::min(al, eb) % 128;
                 o -= o % al;
                 if (o + bytes > DATA)
                     o = (DATA - bytes) - ((DATA - bytes) % al);
@@ -469,9 +470,9 @@ namespace
                 return o;
             default: // PL_PAGE
             {
-                size_t back = ((size_t)off * eb) % (bytes ? bytes : 1);
+                size_t back = ((size_t)off * std::min(al, eb)) % (bytes ? bytes : 1);
                 if (back == 0)
-                    back = eb;
+                    back = std::min(al, eb);
                 o = PAGE - back;
                 o -= o % al;
                 return o;
